@@ -92,30 +92,29 @@ theorem updateBest_ok (st : SeqSt S) (N : SubP S) (lb0 : Int) (o : DDOut S)
 /-! ### `enqueue_cutset` with the plain multiset fringe (`SimpleFringe`) -/
 
 /-- one iteration of the `drain_cutset` closure -/
-def enqOne (dedup : Bool) (ub : Int) (st : SeqSt S) (c : SubP S) : SeqSt S :=
-  let c' := { c with ub := min ub c.ub }
-  if c'.ub > st.bestLb then
-    let fr := pushSpec dedup st.fringe c'
+def enqOne (dedup : Bool) (st : SeqSt S) (c : SubP S) : SeqSt S :=
+  if c.ub > st.bestLb then
+    let fr := pushSpec dedup st.fringe c
     let delta := fr.length - st.fringe.length
-    match bumpLayer st.openByLayer c'.depth delta with
+    match bumpLayer st.openByLayer c.depth delta with
     | some l => { st with fringe := fr, openByLayer := l }
     | none => { st with fringe := fr, crashed := true }
   else st
 
-theorem enqueue_eq_foldl (dedup : Bool) (st : SeqSt S) (ub : Int) (cs : List (SubP S)) :
-    st.enqueue dedup ub cs = cs.foldl (enqOne dedup ub) st := rfl
+theorem enqueue_eq_foldl (dedup : Bool) (st : SeqSt S) (cs : List (SubP S)) :
+    st.enqueue dedup cs = cs.foldl (enqOne dedup) st := rfl
 
-theorem enqOne_false_spec (ub : Int) (st : SeqSt S) (c0 : SubP S) :
-    (enqOne false ub st c0).bestLb = st.bestLb ∧ (enqOne false ub st c0).bestSol = st.bestSol ∧
-    (enqOne false ub st c0).bestUb = st.bestUb ∧ (enqOne false ub st c0).abort = st.abort ∧
-    ∀ c, c ∈ (enqOne false ub st c0).fringe ↔
-      (c ∈ st.fringe ∨ (c = { c0 with ub := min ub c0.ub } ∧ min ub c0.ub > st.bestLb)) := by
+theorem enqOne_false_spec (st : SeqSt S) (c0 : SubP S) :
+    (enqOne false st c0).bestLb = st.bestLb ∧ (enqOne false st c0).bestSol = st.bestSol ∧
+    (enqOne false st c0).bestUb = st.bestUb ∧ (enqOne false st c0).abort = st.abort ∧
+    ∀ c, c ∈ (enqOne false st c0).fringe ↔
+      (c ∈ st.fringe ∨ (c = c0 ∧ c0.ub > st.bestLb)) := by
   unfold enqOne
-  by_cases hgt : min ub c0.ub > st.bestLb
-  · have hm : ∀ c : SubP S, c ∈ pushSpec false st.fringe { c0 with ub := min ub c0.ub } ↔
-        (c ∈ st.fringe ∨ (c = { c0 with ub := min ub c0.ub } ∧ min ub c0.ub > st.bestLb)) := by
+  by_cases hgt : c0.ub > st.bestLb
+  · have hm : ∀ c : SubP S, c ∈ pushSpec false st.fringe c0 ↔
+        (c ∈ st.fringe ∨ (c = c0 ∧ c0.ub > st.bestLb)) := by
       intro c
-      show c ∈ ({ c0 with ub := min ub c0.ub } :: st.fringe) ↔ _
+      show c ∈ (c0 :: st.fringe) ↔ _
       rw [List.mem_cons]
       constructor
       · rintro (h | h)
@@ -124,15 +123,13 @@ theorem enqOne_false_spec (ub : Int) (st : SeqSt S) (c0 : SubP S) :
       · rintro (h | ⟨h, _⟩)
         · exact Or.inr h
         · exact Or.inl h
-    show (if min ub c0.ub > st.bestLb then _ else st).bestLb = _ ∧ _
     rw [if_pos hgt]
     simp only
     cases bumpLayer st.openByLayer c0.depth
-        ((pushSpec false st.fringe { c0 with ub := min ub c0.ub }).length - st.fringe.length) with
+        ((pushSpec false st.fringe c0).length - st.fringe.length) with
     | some l => exact ⟨rfl, rfl, rfl, rfl, hm⟩
     | none => exact ⟨rfl, rfl, rfl, rfl, hm⟩
-  · show (if min ub c0.ub > st.bestLb then _ else st).bestLb = _ ∧ _
-    rw [if_neg hgt]
+  · rw [if_neg hgt]
     refine ⟨rfl, rfl, rfl, rfl, fun c => ?_⟩
     constructor
     · intro h; exact Or.inl h
@@ -140,18 +137,18 @@ theorem enqOne_false_spec (ub : Int) (st : SeqSt S) (c0 : SubP S) :
       · exact h
       · exact absurd h hgt
 
-theorem enqueue_false_spec (st : SeqSt S) (ub : Int) (cs : List (SubP S)) :
-    (st.enqueue false ub cs).bestLb = st.bestLb ∧ (st.enqueue false ub cs).bestSol = st.bestSol ∧
-    (st.enqueue false ub cs).bestUb = st.bestUb ∧ (st.enqueue false ub cs).abort = st.abort ∧
-    ∀ c, c ∈ (st.enqueue false ub cs).fringe ↔
-      (c ∈ st.fringe ∨ ∃ c0 ∈ cs, c = { c0 with ub := min ub c0.ub } ∧ min ub c0.ub > st.bestLb) := by
+theorem enqueue_false_spec (st : SeqSt S) (cs : List (SubP S)) :
+    (st.enqueue false cs).bestLb = st.bestLb ∧ (st.enqueue false cs).bestSol = st.bestSol ∧
+    (st.enqueue false cs).bestUb = st.bestUb ∧ (st.enqueue false cs).abort = st.abort ∧
+    ∀ c, c ∈ (st.enqueue false cs).fringe ↔
+      (c ∈ st.fringe ∨ ∃ c0 ∈ cs, c = c0 ∧ c0.ub > st.bestLb) := by
   rw [enqueue_eq_foldl]
   induction cs generalizing st with
   | nil => simp
   | cons c0 cs ih =>
     simp only [List.foldl_cons]
-    obtain ⟨h1, h2, h3, h4, h5⟩ := enqOne_false_spec ub st c0
-    obtain ⟨i1, i2, i3, i4, i5⟩ := ih (enqOne false ub st c0)
+    obtain ⟨h1, h2, h3, h4, h5⟩ := enqOne_false_spec st c0
+    obtain ⟨i1, i2, i3, i4, i5⟩ := ih (enqOne false st c0)
     refine ⟨i1.trans h1, i2.trans h2, i3.trans h3, i4.trans h4, fun c => ?_⟩
     rw [i5 c, h5 c, h1]
     constructor
@@ -164,6 +161,39 @@ theorem enqueue_false_spec (st : SeqSt S) (ub : Int) (cs : List (SubP S)) :
       · rcases List.mem_cons.mp hc1 with e | e
         · subst e; exact Or.inl (Or.inr ⟨h, hg⟩)
         · exact Or.inr ⟨c1, e, h, hg⟩
+
+/-! ### the pre-fix (capped) `enqueue_cutset(ub)` and its relation to the repaired one -/
+
+/-- one iteration of the pre-fix `drain_cutset` closure (`cutset_node.ub = ub.min(cutset_node.ub)`) -/
+def enqOneCapped (dedup : Bool) (ub : Int) (st : SeqSt S) (c : SubP S) : SeqSt S :=
+  let c' := { c with ub := min ub c.ub }
+  if c'.ub > st.bestLb then
+    let fr := pushSpec dedup st.fringe c'
+    let delta := fr.length - st.fringe.length
+    match bumpLayer st.openByLayer c'.depth delta with
+    | some l => { st with fringe := fr, openByLayer := l }
+    | none => { st with fringe := fr, crashed := true }
+  else st
+
+theorem enqueueCapped_eq_foldl (dedup : Bool) (st : SeqSt S) (ub : Int) (cs : List (SubP S)) :
+    st.enqueueCapped dedup ub cs = cs.foldl (enqOneCapped dedup ub) st := rfl
+
+theorem enqOne_eq_capped (dedup : Bool) (U : Int) (st : SeqSt S) (c : SubP S) (h : c.ub ≤ U) :
+    enqOne dedup st c = enqOneCapped dedup U st c := by
+  have hm : min U c.ub = c.ub := by omega
+  unfold enqOne enqOneCapped
+  simp only [hm]
+
+/-- **the repaired enqueue is the pre-fix enqueue with a cap that dominates the cut-set** -/
+theorem enqueue_eq_capped (dedup : Bool) (U : Int) (cs : List (SubP S)) (hU : ∀ c ∈ cs, c.ub ≤ U) :
+    ∀ st : SeqSt S, st.enqueue dedup cs = st.enqueueCapped dedup U cs := by
+  induction cs with
+  | nil => intro st; rfl
+  | cons c0 cs ih =>
+    intro st
+    rw [enqueue_eq_foldl, enqueueCapped_eq_foldl, List.foldl_cons, List.foldl_cons,
+      enqOne_eq_capped dedup U st c0 (hU c0 List.mem_cons_self), ← enqueue_eq_foldl, ← enqueueCapped_eq_foldl]
+    exact ih (fun c h => hU c (List.mem_cons_of_mem _ h)) _
 
 end
 end Ddo
